@@ -120,31 +120,30 @@ func VerifC04_limit_run() {
 	// C04, stated on what a consumer can observe only (t0, the instants at which the elements left, Quantity, Interval):
 	// (a) at most Quantity*(floor((t-t0)/Interval)+1) elements have left by time t. For the (i+1)-th element that is
 	//     times[i]-t0 >= floor(i/Quantity)*Interval; floor(i/Quantity) = m is split into cases so that the products stay linear.
-	for i := range e.out {
+	// Both bounds are asserted for the LAST element of the run only: the discipline is causal (what it did up to an element
+	// does not depend on what arrives later), and the runs with fewer elements (M = 0..5 are all instances) are its prefixes.
+	for i := len(e.out) - 1; i >= 0 && i == len(e.out)-1; i-- {
 		for m := 1; m <= i; m++ {
-			if vAnd(vLin(uint64(m), Q, 0, uint64(i), 1, 1), vLin(uint64(i), 1, 0, uint64(m)+1, Q, 0)) { // m*Q <= i < (m+1)*Q
-				need := int64(0)
-				for g := 0; g < m; g++ {
-					need += I
-				}
-				vReach("cumulative-checked")
-				vAssert(e.times[i]-e.t0 >= need, "C04: at most Quantity*(floor(t/Interval)+1) elements have left by time t after creation")
+			// m*Q <= i < (m+1)*Q  =>  ...   (an implication inside one query: no fork per case)
+			need := int64(0)
+			for g := 0; g < m; g++ {
+				need += I
 			}
+			vAssert(vImp(vAnd(vLin(uint64(m), Q, 0, uint64(i), 1, 1), vLin(uint64(i), 1, 0, uint64(m)+1, Q, 0)), e.times[i]-e.t0 >= need),
+				"C04: at most Quantity*(floor(t/Interval)+1) elements have left by time t after creation")
 		}
 	}
 	// (b) a window of length W holds at most Quantity*(floor(W/Interval)+2) elements: elements i<j with
 	//     floor((j-i)/Quantity) = m >= 2 are at least (m-1) Intervals apart
 	for i := range e.out {
-		for j := i + 1; j < len(e.out); j++ {
+		for j := len(e.out) - 1; j > i && j == len(e.out)-1; j-- {
 			for m := 2; m <= j-i; m++ {
-				if vAnd(vLin(uint64(m), Q, 0, uint64(j-i), 1, 1), vLin(uint64(j-i), 1, 0, uint64(m)+1, Q, 0)) {
-					need := int64(0)
-					for g := 0; g < m-1; g++ {
-						need += I
-					}
-					vReach("window-checked")
-					vAssert(e.times[j]-e.times[i] >= need, "C04: a window of length W holds at most Quantity*(floor(W/Interval)+2) elements (burst <= 2*Quantity)")
+				need := int64(0)
+				for g := 0; g < m-1; g++ {
+					need += I
 				}
+				vAssert(vImp(vAnd(vLin(uint64(m), Q, 0, uint64(j-i), 1, 1), vLin(uint64(j-i), 1, 0, uint64(m)+1, Q, 0)), e.times[j]-e.times[i] >= need),
+					"C04: a window of length W holds at most Quantity*(floor(W/Interval)+2) elements (burst <= 2*Quantity)")
 			}
 		}
 	}
